@@ -452,15 +452,19 @@ def impl_actor(inp):
         agA, agB = SA.agents[C.aid(i)], SB.agents[C.aid(i)]
         del seen[:]
         np.random.seed(seed + 7 * j + 1)
-        rA = WA.process_action(agA, {key: k})
+        sent = {key: k}
+        rA = WA.process_action(agA, sent)
+        # the action dictionary is the caller's (a trainer records it after the step, a driver may
+        # send it again): the wrapper must hand the DECODED action on in a dictionary of its own
+        untouched = list(sent) == [key] and type(sent[key]) is type(k) and sent[key] == k
         if chans_py[i] is None:
-            ret_eq = rA is None and not seen
+            ret_eq = rA is None and not seen and untouched
             results.append([0, [9], int(ret_eq), int(SA.snapshot() == SB.snapshot())])
             continue
         np.random.seed(seed + 7 * j + 1)
         rB = SB.actor.process_action(agB, {key: C.sx_to_val(chans_py[i], dm)})
         got = C.upoint_to_sx(chans_py[i], seen[0]) if len(seen) == 1 else [9]
-        results.append([1, got, int(C.canon_result(rA) == C.canon_result(rB)),
+        results.append([1, got, int(C.canon_result(rA) == C.canon_result(rB) and untouched),
                         int(SA.snapshot() == SB.snapshot())])
     return [model_in, [1, int(unwrapped), sizes, results]]
 
